@@ -44,10 +44,14 @@ EXC_KINDS = ['OSError', 'SimError', 'SimAbort', 'KeyboardInterrupt', 'MemoryErro
 # generator frame of the library) it must pass through like any other exception
 EXC_KINDS_REPRESENTER = EXC_KINDS + ['StopIteration']
 
-DUMP_APIS = ['dump', 'dump_all', 'safe_dump', 'serialize_all', 'emit']
+DUMP_APIS = ['dump', 'dump_all', 'safe_dump', 'safe_dump_all', 'serialize', 'serialize_all', 'emit']
 LOAD_APIS = ['load', 'load_all', 'compose', 'compose_all', 'parse', 'scan']
-DUMPERS = ['SafeDumper', 'Dumper', 'CSafeDumper', 'CDumper', 'BaseDumper']
-LOADERS = ['SafeLoader', 'FullLoader', 'Loader', 'CSafeLoader', 'CFullLoader', 'CLoader', 'BaseLoader', 'CBaseLoader']
+# the convenience wrappers are functions of their own (they take no Loader= / Dumper=): stream faults only
+WRAP_LOAD = {'safe_load': 'load', 'safe_load_all': 'load_all', 'full_load': 'load', 'full_load_all': 'load_all',
+             'unsafe_load': 'load', 'unsafe_load_all': 'load_all'}
+DUMPERS = ['SafeDumper', 'Dumper', 'CSafeDumper', 'CDumper', 'BaseDumper', 'CBaseDumper']
+LOADERS = ['SafeLoader', 'FullLoader', 'Loader', 'CSafeLoader', 'CFullLoader', 'CLoader', 'BaseLoader', 'CBaseLoader',
+           'UnsafeLoader', 'CUnsafeLoader']
 
 
 class SimError(Exception):
@@ -147,13 +151,13 @@ def generate(seed, tier):
             'multi_callback': r.random() < 0.3, 'gen_callback': r.random() < 0.3, 'special': custom and r.random() < 0.4}
     if side == 'dump':
         api = r.choice(['dump', 'dump_all'] if custom else
-                       ['dump', 'dump', 'dump_all', 'dump_all', 'safe_dump', 'serialize_all', 'serialize_all', 'emit', 'emit'])
+                       ['dump', 'dump', 'dump_all', 'dump_all', 'safe_dump', 'safe_dump_all', 'serialize', 'serialize_all', 'serialize_all', 'emit', 'emit'])
         dumper = r.choice(DUMPERS)
-        if api == 'safe_dump':
+        if api in ('safe_dump', 'safe_dump_all'):
             dumper = 'SafeDumper'
             custom = case['custom'] = False
-            case['values'] = [values.Gen(rv, depth=2).value(0)]
-        if dumper in ('BaseDumper',) and api in ('dump', 'dump_all'):
+            case['values'] = [values.Gen(rv, depth=2).value(0) for _ in range(1 if api == 'safe_dump' else ndocs)]
+        if dumper in ('BaseDumper', 'CBaseDumper') and api in ('dump', 'dump_all'):
             api = 'serialize_all'
         big_py = (not big) and (not dumper.startswith('C')) and r.random() < 0.04
         if big_py:
@@ -170,7 +174,7 @@ def generate(seed, tier):
                     stream={'kind': r.choice(['text', 'binary', 'text', 'binary', 'none']), 'flush': r.random() < 0.7},
                     encoding=r.choice([None, None, 'utf-8', 'utf-16-le', 'utf-16-be']) if not case.get('point_cap') else r.choice(['utf-8', 'utf-8', 'utf-16-le']),
                     gen_docs=r.random() < 0.5)
-        if api in ('dump', 'safe_dump'):
+        if api in ('dump', 'safe_dump', 'serialize'):
             case['values'] = case['values'][:1]
             case['gen_docs'] = False
         case['special'] = bool(case['special'] and case['custom'] and api in ('dump', 'dump_all') and not dumper.endswith('BaseDumper'))
@@ -184,6 +188,9 @@ def generate(seed, tier):
         if len(text) > 2500:
             text = text[:2500]
         case.update(text=text, label=label, custom=False, values=[])
+    if not custom and case.get('text') is None and r.random() < 0.25:
+        api = r.choice(sorted(WRAP_LOAD))
+        loader = {'s': 'SafeLoader', 'f': 'FullLoader', 'u': 'UnsafeLoader'}[api[0]]
     form = r.choice(['text', 'utf8', 'utf8', 'utf16le'])
     sk = r.random()
     if sk < 0.35:
@@ -325,9 +332,9 @@ def prepare_payload(yaml, case, world):
         y.__dict__.update({'a': 1, 'b': [2, 'three']})
         vals = [[y, {'k': y}]] + vals if case['api'] == 'dump' else vals + [[y, {'k': y}]]
     if case['side'] == 'dump':
-        if case['api'] in ('serialize_all', 'emit'):
+        if case['api'] in ('serialize_all', 'serialize', 'emit'):
             text = yaml.dump_all(vals, Dumper=type('PrepDumper', (yaml.SafeDumper,), {}) if not case['custom'] else prep_dumper(yaml))
-            if case['api'] == 'serialize_all':
+            if case['api'] in ('serialize_all', 'serialize'):
                 return list(yaml.compose_all(text, Loader=yaml.SafeLoader))
             return list(yaml.parse(text, Loader=yaml.SafeLoader))
         return vals
@@ -381,6 +388,11 @@ def run_once(yaml, case, world, payload, faults, sticky=False):
                 returned = yaml.safe_dump(payload[0], ws, encoding=case['encoding'], **opts)
             elif api == 'dump_all':
                 returned = yaml.dump_all(src, ws, Dumper=D, encoding=case['encoding'], **opts)
+            elif api == 'safe_dump_all':
+                returned = yaml.safe_dump_all(src, ws, encoding=case['encoding'], **opts)
+            elif api == 'serialize':
+                o = {k: v for k, v in opts.items() if k not in ('default_style', 'default_flow_style', 'sort_keys')}
+                returned = yaml.serialize(payload[0], ws, Dumper=D, encoding=case['encoding'], **o)
             elif api == 'serialize_all':
                 o = {k: v for k, v in opts.items() if k not in ('default_style', 'default_flow_style', 'sort_keys')}
                 returned = yaml.serialize_all(src, ws, Dumper=D, encoding=case['encoding'], **o)
@@ -412,7 +424,13 @@ def run_once(yaml, case, world, payload, faults, sticky=False):
         api = case['api']
         L = world['Loader']
         try:
-            if api in ('load', 'compose'):
+            if api in WRAP_LOAD:
+                if WRAP_LOAD[api] == 'load':
+                    obs['items'].append(canon('load', getattr(yaml, api)(s)))
+                else:
+                    for it in getattr(yaml, api)(s):
+                        obs['items'].append(canon('load_all', it))
+            elif api in ('load', 'compose'):
                 res = getattr(yaml, api)(s, Loader=L)
                 obs['items'].append(canon(api, res))
             else:
